@@ -198,10 +198,12 @@ char *fb_read_file(const char *filename, size_t max_size, size_t *size_out)
         goto fail;
     }
     rewind(fp);
-    buf = malloc(size ? size : 1);
+    /* The lexer expects a zero terminated buffer (it scans digits and names up to the terminator). */
+    buf = malloc(size + 1);
     if (!buf) {
         goto fail;
     }
+    buf[size] = '\0';
     pos = 0;
     while ((n = fread(buf + pos, 1, size - pos, fp))) {
         pos += n;
